@@ -692,7 +692,7 @@ def _refactoring_twins() -> None:
     import pathlib as _pl
 
     root = _pl.Path(__file__).resolve().parent.parent / "seeded"
-    for d in sorted([*root.glob("C??-rf-?"), *root.glob("C??-rg-?"), *root.glob("C??-rh-?"), *root.glob("C??-ri-?"), *root.glob("C??-rj-?")]):
+    for d in sorted([*root.glob("C??-rf-?"), *root.glob("C??-rg-?"), *root.glob("C??-rh-?"), *root.glob("C??-ri-?"), *root.glob("C??-rj-?"), *root.glob("C??-rk-?")]):
         mf = d / "meta.json"
         if not mf.exists() or not (d / "patch.diff").exists():
             continue
